@@ -2407,4 +2407,35 @@ theorem multiprocess_order' (w : World) (hw : w.OK) (L : List Rec) (hL : ValidLo
   rw [h2] at h1
   exact h1.trans ((runOrder_perm' chunkOf m _).filterMap w.out)
 
+/-! ## Phase 6: execution configuration -/
+
+theorem runCfg_eq' (r : CfgRoute) : runCfg r = (match r.arg with | some a => a | none => r.ctx) := by
+  cases r with
+  | mk s a c => cases a <;> rfl
+
+theorem runCfg_stored_irrelevant' (s1 s2 a : Option Nat) (c : Nat) : runCfg ⟨s1, a, c⟩ = runCfg ⟨s2, a, c⟩ := rfl
+
+theorem resume_correct_any_config' (w : World) (hw : w.OK) (L : List Rec) (hL : ValidLog w L) (k : Nat)
+    (chunkOf : Nat → Option Nat) (cfg : RunConfig) :
+    ∃ K, restore Flags.fixed w.c (some (cut w L k)) = some ⟨logFile w K, K⟩ ∧ K <+: L ∧
+      (∀ app, (app = (runOrderCfg chunkOf cfg (makeTasks true K w.triples)).filterMap w.out ∨
+               Merge ((chunkTasks chunkOf (runCfg cfg.mt) (makeTasks true K w.triples)).map
+                 (fun c => (processOrder c).filterMap w.out)) app) →
+        let o := finish w.c ⟨logFile w K, K⟩ (makeTasks true K w.triples) (preamble Flags.fixed w.ver w.exp K) app
+        o.file = logFile w (K ++ o.appended) ∧ o.final = some (K ++ o.appended) ∧ ValidLog w (K ++ o.appended) ∧
+        (K ++ o.appended).Perm w.universe ∧ (∀ t ∈ o.tasks, ∀ r ∈ K, r.key ≠ t.key)) := by
+  obtain ⟨K, hK, hpre, hall⟩ := multiprocess_order' w hw L hL k chunkOf (runCfg cfg.mt)
+  refine ⟨K, hK, hpre, ?_⟩
+  intro app happ
+  rcases happ with h | h
+  · subst h
+    obtain ⟨K', hK', _, h2⟩ := resume_correct_run_order' w hw L hL k chunkOf (runCfg cfg.mt)
+    have hKK : K' = K := by
+      rw [hK] at hK'
+      have := Option.some.inj hK'
+      exact (congrArg Restore.K this).symm
+    subst hKK
+    exact h2
+  · exact (hall app h).2
+
 end Coba.C02
